@@ -566,9 +566,15 @@ def wl_large(ctx, rng, case):
             est, rate = rng.choice([(5000, 0.01), (20000, 0.05), (100000, 0.01), (3000, 1e-6)]) if kind == "bloom" else rng.choice([(2000, 0.01), (5000, 0.05)])
             if kind == "bloom" and rng.random() < 0.3:
                 est, rate = rng.choice([(300000, 0.01), (70000, 0.01)])
+            if rng.random() < 0.35:
+                # an array whose length is an exact multiple of a power-of-two block size (512 bytes .. 64 KiB): no remainder after the last block
+                est, rate = gen.aligned_geometry(rng, counting=(kind == "counting_bloom"), max_len=270000)[:2]
+                ctx.count("large_block_aligned_arrays")
             s = cls(est, rate)
             for kk in keys:
                 s.add(kk)
+            if kind == "counting_bloom":
+                bl.dense_fill(rng, [[s]], s.number_bits, s.number_hashes, share=0.5)
             if kind == "bloom":
                 bl.dense_fill(rng, [[s]], s.number_bits, s.number_hashes, share=0.8)  # nearly every byte of the large array carries a bit
             case.desc.update(est=est, rate=rate, bits=s.number_bits)
